@@ -38,6 +38,7 @@ type FuncSpec struct {
 	Verify    bool // verify body
 	NilStrict bool
 	HoldsAtEntry []string
+	PreservesHeld bool // the callee does not write state guarded by locks the caller holds (no re-entry into the monitor)
 	EntrySets []*GhostSet // ghost assignments that happen when the function is called (definitional)
 	Events    []Clause // ghost counters that calling this function increments (the call itself is the event)
 	GhostSets []*GhostSet
@@ -73,6 +74,7 @@ type TypeSpec struct {
 	Immutable map[string]bool
 	Ghost     map[string]string // ghost field -> "int"|"bool"
 	Invariant []Clause
+	AssumedInv []Clause // assumed when the lock is taken / at inv(x); not checked (listed as assumptions)
 	Props     []string
 }
 
@@ -320,8 +322,13 @@ func (sp *Specs) parseFile(path string, extern bool) error {
 		case "type":
 			rest, props := splitProps(rest)
 			curF, curL = nil, nil
-			curT = &TypeSpec{Name: rest, Guarded: map[string]string{}, Immutable: map[string]bool{}, Ghost: map[string]string{}, Props: props}
-			sp.Types[rest] = curT
+			if old, ok := sp.Types[rest]; ok {
+				curT = old // several blocks for one type are merged
+				curT.Props = mergeProps(curT.Props, props)
+			} else {
+				curT = &TypeSpec{Name: rest, Guarded: map[string]string{}, Immutable: map[string]bool{}, Ghost: map[string]string{}, Props: props}
+				sp.Types[rest] = curT
+			}
 		case "requires", "ensures", "invariant", "modifies":
 			if word == "modifies" && curF != nil {
 				r, _ := splitProps(rest)
@@ -427,6 +434,10 @@ func (sp *Specs) parseFile(path string, extern bool) error {
 				gs.Exprs = append(gs.Exprs, e)
 			}
 			curF.GhostSets = append(curF.GhostSets, gs)
+		case "preserves-held":
+			if curF != nil {
+				curF.PreservesHeld = true
+			}
 		case "entry-set":
 			if curF == nil {
 				return fail(fmt.Errorf("entry-set outside func block"))
@@ -549,6 +560,16 @@ func (sp *Specs) parseFile(path string, extern bool) error {
 			if curF != nil {
 				curF.Acquires = append(curF.Acquires, strings.Fields(strings.ReplaceAll(rest, ",", " "))...)
 			}
+		case "assume-invariant":
+			if curT == nil {
+				return fail(fmt.Errorf("assume-invariant outside type block"))
+			}
+			c, err := mkClause(rest)
+			if err != nil {
+				return fail(err)
+			}
+			curT.AssumedInv = append(curT.AssumedInv, c)
+			sp.Assumes = append(sp.Assumes, "type "+curT.Name+": "+c.Text)
 		case "guarded_by":
 			if curT == nil {
 				return fail(fmt.Errorf("guarded_by outside type block"))
